@@ -15,7 +15,7 @@ from ..rng import Rng
 RULE = ("parameter tuples built from accepted tuples (dyadic grids, random floats) by replacing components with boundary "
         "values (0, 1, +-k ulps around them for k = 1..6, -0.0, NaN, +-inf, subnormals, machine epsilon multiples) and by "
         "violating each constraint singly and jointly with margins from 1 ulp to 0.5; element types f32/f64; binomial, "
-        "plain array, unlabelled and labelled multi-array; sizes 1..4; every checked entry point (try_new, new, TryFrom "
+        "plain array, unlabelled and labelled multi-array; sizes 1..5 and 7; every checked entry point (try_new, new, TryFrom "
         "tuple forms, simplex-to-opinion upgrade); plus the vacuous / dogmatic predicates around 0 and 1; the accept / "
         "reject decision must equal the Flocq model's bit for bit; non-trivial = tuple is not exactly well-formed")
 COQ = core.COQ
@@ -108,8 +108,8 @@ def gen(rng, tier):
     cases = []  # dict: op fam style ty dims nums kind
     nrand = 60 if tier == "quick" else 3000
     for ty in ("f64", "f32"):
-        for n in (1, 2, 3, 4):
-            for i in range(nrand):
+        for n in (1, 2, 3, 4, 5, 7):
+            for i in range(nrand if n <= 4 else max(10, nrand // 4)):
                 b, u, a = mutate(rng, ty, *base_tuple(rng, ty, n, None), binomial=False)
                 for fam, styles_s, styles_o in (("arr", ["try_new", "new", "try_from"], ["try_new", "new", "into_opinion"]),
                                                 ("marr", ["try_new", "new"], ["try_new", "new"]),
